@@ -5,14 +5,20 @@ import common, plotds
 from plotds import DS, NAN, PINF, NINF, tok_out, finite, label, prettify
 
 PROP = 'C17'
-LEAN_MODULES = ['XyzProofs.Props.C17']
+LEAN_MODULES = ['XyzProofs.Props.C17', 'XyzProofs.Props.C17Src']
 THEOREMS = ['PlotPrep.c17_series_count_order_labels', 'PlotPrep.c17_points', 'PlotPrep.c17_points_carried',
             'PlotPrep.c17_points_mem', 'PlotPrep.c17_mask_arrays', 'PlotPrep.c17_mask_ignores_carried',
             'PlotPrep.c17_point_kept_iff', 'PlotPrep.c17_all_nan_series_empty', 'PlotPrep.c17_hist_values',
             'PlotPrep.c17_heatmap_mesh', 'PlotPrep.c17_panels', 'PlotPrep.c17_colour_structure_partial',
             'PlotPrep.c17_colour_limits', 'PlotPrep.c17_figure_limits',
-            'PlotPrep.c17_legend_or_colorbar', 'PlotPrep.c17_pure']
-ANCHORS = ['maskIsBothFinite', 'maskArrays', 'vminDefaulted', 'vmaxDefaulted', 'autoLegend']
+            'PlotPrep.c17_legend_or_colorbar', 'PlotPrep.c17_pure',
+            # on the translated source (harness/anchors_plotsrc.py; XyzProofs/Props/C17Src.lean)
+            'PlotPrep.c17_src_genxy_series_per_z', 'PlotPrep.c17_src_genx_series_per_z', 'PlotPrep.c17_src_legend_refines',
+            'PlotPrep.c17_src_legend_rule', 'PlotPrep.c17_src_zvals_refines', 'PlotPrep.c17_src_zvals_order',
+            'PlotPrep.c17_src_zlabels_order', 'PlotPrep.c17_src_zlabels_given', 'PlotPrep.c17_src_labels_refine',
+            'PlotPrep.c17_src_loops_take_one_label']
+ANCHORS = ['maskIsBothFinite', 'maskArrays', 'vminDefaulted', 'vmaxDefaulted', 'autoLegend',
+           'plZVals', 'plZLabels', 'plLegend', 'plGenXY', 'plGenX', 'plLoopNexts']
 RULE = ("each case = (explicit dataset: 1-4 dims of size 1-5 (up to 13 series in a boundary slice), numeric/str "
         "coordinates in arbitrary order, variables with shuffled dimension order, cells = distinct dyadic floats / NaN / "
         "+-inf incl. all-NaN series; a call of lineplot / scatter / histogram / heatmap or their auto_* forms with z or "
